@@ -36,10 +36,11 @@ ALPHABET = [
     "Trash.lock", "Trash.OpenFile", "Trash.lockfile", "Trash.Stat", "Trash.Remove", "Trash.Rename",
     "Untrash.ReadDir", "Untrash.Rename",
     "EmptyTrash.Walk", "EmptyTrash.Remove",
+    "IndexTo.Open", "IndexTo.rootdir.Readdirnames", "IndexTo.blockdir.Readdir", "IndexTo.blockdir.Close",
 ]
 # labels of the scheduled methods that exist in the source but only on error paths the C04 model does not take
 ERROR_PATH = {"WriteBlock.Remove", "WriteBlock.tmpfile.Name"}
-SCHEDULED_METHODS = ("Compare", "Touch", "WriteBlock", "Mtime", "Trash", "Untrash", "EmptyTrash")
+SCHEDULED_METHODS = ("Compare", "Touch", "WriteBlock", "Mtime", "Trash", "Untrash", "EmptyTrash", "IndexTo")
 
 
 def build_instrumented(ctx):
@@ -206,11 +207,15 @@ def run(ctx):
     # GEN: design-level checks
     ctx.tlc(SD, "KeepVolume", "MC_C04.cfg" if ctx.thorough else "MC_C04_quick.cfg", timeout=1500,
             label="exhaustive: contract obligations (no exclusion), AckedSurvives, lock discipline")
+    ctx.tlc(SD, "KeepVolume", "MC_C04_idx.cfg", timeout=1500,
+            label="exhaustive: PUT|pull || DELETE|trash item || GET /index, 1 volume (IndexComplete)")
     if ctx.thorough:
         r = ctx.tlc(SD, "KeepVolume", "MC_C04_nofix.cfg", timeout=600, must_pass=False,
                     label="non-vacuity: the model of the code before 6f6002f (WBFlock = FALSE) has the overwrite race")
         if r.violated != "NoViolation":
             raise vlib.InfraError("MC_C04_nofix.cfg was expected to refute NoViolation:\n" + r.tail())
+        ctx.tlc(SD, "KeepVolume", "MC_C04_idx2.cfg", timeout=1500,
+                label="exhaustive: pairs of PUT|pull, DELETE|trash item, GET /index on 2 volumes")
         ctx.tlc(SD, "KeepVolume", "MC_C04_x.cfg", timeout=1500,
                 label="exhaustive with untrash / EmptyTrash as a concurrent request (KF-C04-2 excluded by name)")
 
@@ -262,7 +267,10 @@ def run(ctx):
 
     sched = [t for t in traces if t[0].get("mode") != "random"]
     # lock probes are expected to block in the unchanged code; they are not drift
+    # (nor are index schedules whose number of Readdir turns differs: the order of directory entries is the
+    # filesystem's business, the model chooses one)
     mism = [t[0] for t in sched if not (by_id.get(t[0].get("scn")) or {}).get("probe")
+            and not ((by_id.get(t[0].get("scn")) or {}).get("xk") == "index" and not t[0].get("blocked") and not t[0].get("unknown"))
             and (t[0].get("mism") or t[0].get("unused") or t[0].get("blocked") or t[0].get("unknown"))]
     ctx.extra["lock_probes_blocked"] = sum(1 for t in sched if (by_id.get(t[0].get("scn")) or {}).get("probe")
                                            and t[0].get("blocked"))
